@@ -136,6 +136,73 @@ func cmdReplay(args []string) int {
 		return 2
 	}
 	fmt.Println(string(data))
+	// a replay file of a free function carries the generated contract-evaluating test: run it again on
+	// /repo's current tree (exit 1 when the violation reproduces, 0 when it does not)
+	var rep map[string]interface{}
+	if json.Unmarshal(data, &rep) != nil {
+		return 0
+	}
+	tfile, _ := rep["replay_test"].(string)
+	if tfile == "" {
+		if sf, _ := rep["test_file"].(string); sf != "" { // bounded stand-in
+			tfile = sf
+		}
+	}
+	if tfile == "" {
+		fmt.Println("gvc replay: no generated test in this file (the obligation was reported without a failing input)")
+		return 0
+	}
+	src, err := os.ReadFile(tfile)
+	if err != nil {
+		fmt.Println("gvc replay: cannot read", tfile)
+		return 0
+	}
+	pkgdir := ""
+	if m := regexp.MustCompile(`(?m)^// dir: *(.*)$`).FindSubmatch(src); m != nil {
+		pkgdir = strings.TrimSpace(string(m[1]))
+	} else if fn, _ := rep["function"].(string); fn != "" {
+		// the package directory of the function behind the obligation
+		if prog, err := loadProgram("/repo"); err == nil {
+			name := fn
+			if i := strings.Index(name, "<"); i >= 0 {
+				name = name[:i]
+			}
+			for _, pk := range prog.Pkgs {
+				for _, f := range pk.Funcs {
+					if f.FullName() == name && f.Decl != nil {
+						if rel, err := filepath.Rel(prog.RepoDir, filepath.Dir(prog.Fset.Position(f.Decl.Pos()).Filename)); err == nil {
+							pkgdir = rel
+						}
+					}
+				}
+			}
+		}
+	}
+	if pkgdir == "" {
+		fmt.Println("gvc replay: cannot tell the package of", tfile)
+		return 0
+	}
+	tmp, err := os.MkdirTemp("", "gvc-replay-")
+	if err != nil {
+		return 0
+	}
+	defer os.RemoveAll(tmp)
+	ov := map[string]map[string]string{"Replace": {filepath.Join("/repo", pkgdir, "zz_verif_replay_test.go"): tfile}}
+	ovData, _ := json.Marshal(ov)
+	ovFile := filepath.Join(tmp, "overlay.json")
+	os.WriteFile(ovFile, ovData, 0o644)
+	cmd := exec.Command("go", "test", "-overlay", ovFile, "-vet=off", "-count=1", "-timeout", "90s", "-run", "^(TestVerifReplay|TestVerifStandin.*)$", "./"+pkgdir+"/")
+	cmd.Dir = "/repo"
+	cmd.Env = append(os.Environ(), "GOFLAGS=-mod=mod", "GOPROXY=off", "GOSUMDB=off", "GOTOOLCHAIN=local")
+	out, _ := cmd.CombinedOutput()
+	text := string(out)
+	fmt.Println("---- go test -overlay (real code, /repo's current tree) ----")
+	fmt.Println(truncate(text, 3000))
+	if strings.Contains(text, "REPLAY-VIOLATION") || strings.Contains(text, "--- FAIL") {
+		fmt.Println("gvc replay: the violation reproduces on the current tree")
+		return 1
+	}
+	fmt.Println("gvc replay: the violation does not reproduce on the current tree")
 	return 0
 }
 
